@@ -36,7 +36,7 @@ SPEC_CODES = {2, 5, 6}
 
 
 def digest_bin(ctx):
-    return os.path.join(os.path.dirname(ctx.harness), 'vh_digest')
+    return vlib.need_bin('vh_digest')
 
 
 def run_bin(args, inp=None):
